@@ -190,6 +190,11 @@ func runSolver(ctx context.Context, s solverSpec, file string, timeoutS int) (st
 
 // solveOne races the solvers on one obligation.
 func solveOne(ob *Obligation, dir string, timeoutS int, crossCheck bool) {
+	if ob.Cover && timeoutS > 4 {
+		// vacuity covers: a model is either found quickly or (with quantified background axioms) not at
+		// all; an inconclusive cover is reported as such and is not a failure
+		timeoutS = 4
+	}
 	base := filepath.Join(dir, sanitizeFile(ob.Name))
 	file := base + ".smt2"
 	q := ob.query("z3")
@@ -293,6 +298,15 @@ func solveOne(ob *Obligation, dir string, timeoutS int, crossCheck bool) {
 		ob.Solver = unsat.s
 	default:
 		ob.Status = "unknown"
+		nerr := 0
+		for _, v := range ob.Outputs {
+			if v == "error" {
+				nerr++
+			}
+		}
+		if nerr >= 2 {
+			ob.Solver = "SOLVER-ERROR(malformed query?)"
+		}
 	}
 }
 
